@@ -392,3 +392,29 @@ Section SessionLogStateful.
       end
     end.
 End SessionLogStateful.
+
+(* ---- the PLAIN mechanism value ------------------------------------------------
+   *SASLPlain has two exported fields and no other state: Encode is a function of the
+   fields as they are when it is called.  An application that changes them between two
+   exchanges (or connections) is a stateful mechanism whose step i is plain_mech u_i p_i. *)
+Definition m_PLAIN := Eval vm_compute in bs "PLAIN".
+Definition plain_mech (u p : str) : sasl_mech := mkMech m_PLAIN (sasl_plain_encode u p).
+
+(* ---- write faults (conn.go sendLoop, internalConnect) --------------------------
+   sendLoop logs the event (debugLogEvent), then writes it; when the write or the flush
+   fails with I/O error w it returns that error, unchanged, whatever the event was
+   (`if err != nil { return err }`).  internalConnect prints the error that ended the
+   connection ("received error, beginning cleanup: %v") and returns it. *)
+Definition send_loop_error (fault : option str) (e : event) : option str := fault.
+
+Definition t_cleanup := Eval vm_compute in bs "received error, beginning cleanup: ".
+Definition cleanup_log (err : str) : str := t_cleanup ++ err.
+
+Section WriteFault.
+  Variable strip_raw : str -> str.
+  (* Debug lines caused by the event whose write fails with w, and Connect's result *)
+  Definition write_fault_log (w : str) (e : event) : list str :=
+    debug_log strip_raw false e ::
+    match send_loop_error (Some w) e with Some x => [cleanup_log x] | None => [] end.
+  Definition write_fault_result (w : str) (e : event) : option str := send_loop_error (Some w) e.
+End WriteFault.
